@@ -117,6 +117,10 @@ func runMuxStruct(c *mon.Ctx, prop string) {
 			ops = retryScenario(r)
 			c.Count("rejected_calls_repaired_on_the_same_object")
 		}
+		if i%16 == 9 {
+			ops = extensionEditScenario(r)
+			c.Count("histories_editing_the_extension_of_a_kept_adaptation_field")
+		}
 		if i%16 == 6 || i%16 == 14 {
 			// remultiplexing: parsed PES and parsed first-packet adaptation fields handed to the Muxer as they are
 			if rops, n, _ := remuxScenario(r, i%16 == 14); n > 0 {
